@@ -59,7 +59,8 @@ CONFIG = {
                   'thorough': {'c15.modelcheck': 200000}},
     'must_sig': ['fair_states:agree', 'mc:agree', 'mc:CTL', 'mc:CTLS',
                  'mc:LTL', 'F:empty_list', 'F:all_states', 'F:two_sets',
-                 'shape:fair_and_unfair_cycle', 'fairset:proper'],
+                 'shape:fair_and_unfair_cycle', 'fairset:proper',
+                 'labels:fair_lookalikes'],
     'rule': ('cases = (structure, F, formula, logic); structures: class '
              'representatives with <=2 states (all) and 3 states (sample; all '
              'in thorough), hand-built structures where a fair SCC sits next '
@@ -362,7 +363,26 @@ def call(logic, K, t, F, i):
         return e
 
 
+def with_fair_lookalikes(nk, r):
+    """Labels that collide with the names label_fair_states would pick
+    ('fair', 'fair0', ...), placed on random states."""
+    labels = []
+    for l in nk.labels:
+        l = set(l)
+        for name in ('fair', 'fair0', 'fair1'):
+            if r.random() < 0.5:
+                l.add(name)
+        labels.append(l)
+    # make sure 'fair' and 'fair0' both occur somewhere
+    labels[0].add('fair')
+    labels[-1].add('fair0')
+    return NK(nk.states, nk.succ, labels)
+
+
 def drive(nk, Fs, ts, i0, ctx):
+    if i0 % 3 == 1:
+        LOG.sig['labels:fair_lookalikes'] += 1
+        nk = with_fair_lookalikes(nk, gen.rng(ctx.seed, PROP, ('lk', i0)))
     K = mcwork.kripke_of(nk)
     i = i0
     for F in Fs:
